@@ -59,8 +59,8 @@ type direct struct {
 	want func(c ctx) string
 }
 
-func g(i int) int { return i%10 + 1 } // 1-based stem index into GAN-keyed tables
-func z(i int) int { return i%12 + 1 }
+func g(i int) int        { return i%10 + 1 } // 1-based stem index into GAN-keyed tables
+func z(i int) int        { return i%12 + 1 }
 func pd(s string) string { return LunarUtil.POSITION_DESC[s] }
 func chongDesc(p int) string {
 	zh := LunarUtil.CHONG[p%12]
@@ -160,9 +160,13 @@ var directs = []direct{
 	{"GetGong", func(c ctx) string { return c.l.GetGong() }, func(c ctx) string { return LunarUtil.GONG[c.l.GetXiu()] }},
 	{"GetShou", func(c ctx) string { return c.l.GetShou() }, func(c ctx) string { return LunarUtil.SHOU[LunarUtil.GONG[c.l.GetXiu()]] }},
 	{"GetDayTianShenType", func(c ctx) string { return c.l.GetDayTianShenType() }, func(c ctx) string { return LunarUtil.TIAN_SHEN_TYPE[c.l.GetDayTianShen()] }},
-	{"GetDayTianShenLuck", func(c ctx) string { return c.l.GetDayTianShenLuck() }, func(c ctx) string { return LunarUtil.TIAN_SHEN_TYPE_LUCK[LunarUtil.TIAN_SHEN_TYPE[c.l.GetDayTianShen()]] }},
+	{"GetDayTianShenLuck", func(c ctx) string { return c.l.GetDayTianShenLuck() }, func(c ctx) string {
+		return LunarUtil.TIAN_SHEN_TYPE_LUCK[LunarUtil.TIAN_SHEN_TYPE[c.l.GetDayTianShen()]]
+	}},
 	{"GetTimeTianShenType", func(c ctx) string { return c.l.GetTimeTianShenType() }, func(c ctx) string { return LunarUtil.TIAN_SHEN_TYPE[c.l.GetTimeTianShen()] }},
-	{"GetTimeTianShenLuck", func(c ctx) string { return c.l.GetTimeTianShenLuck() }, func(c ctx) string { return LunarUtil.TIAN_SHEN_TYPE_LUCK[LunarUtil.TIAN_SHEN_TYPE[c.l.GetTimeTianShen()]] }},
+	{"GetTimeTianShenLuck", func(c ctx) string { return c.l.GetTimeTianShenLuck() }, func(c ctx) string {
+		return LunarUtil.TIAN_SHEN_TYPE_LUCK[LunarUtil.TIAN_SHEN_TYPE[c.l.GetTimeTianShen()]]
+	}},
 }
 
 // attributes without a published table per key: pure functions of their declared defining inputs
@@ -263,10 +267,10 @@ var moments = ev.Register(&ev.P[momentCase]{
 		ly := calendar.NewLunarYear(x.l.GetYear())
 		lmo := calendar.NewLunarMonthFromYm(x.l.GetYear(), x.lm)
 		type posObj struct {
-			name                                   string
-			gan                                    int
+			name                                    string
+			gan                                     int
 			xi, yang, yin, fu1, fu2, fuDefault, cai string
-			xiD, fuD, caiD                         string
+			xiD, fuD, caiD                          string
 		}
 		for _, o := range []posObj{
 			{"LunarTime", x.m.Time % 10, lt.GetPositionXi(), lt.GetPositionYangGui(), lt.GetPositionYinGui(), lt.GetPositionFuBySect(1), lt.GetPositionFuBySect(2), lt.GetPositionFu(), lt.GetPositionCai(), lt.GetPositionXiDesc(), lt.GetPositionFuDescBySect(1), lt.GetPositionCaiDesc()},
@@ -279,6 +283,11 @@ var moments = ev.Register(&ev.P[momentCase]{
 				return fmt.Errorf("%v: %s with stem %s reports god directions %+v, the tables give Xi %s YangGui %s YinGui %s Fu %s/%s Cai %s", c.T, o.name, ref.Gan[o.gan], o,
 					LunarUtil.POSITION_XI[k], LunarUtil.POSITION_YANG_GUI[k], LunarUtil.POSITION_YIN_GUI[k], LunarUtil.POSITION_FU[k], LunarUtil.POSITION_FU_2[k], LunarUtil.POSITION_CAI[k])
 			}
+		}
+		// the year's almanac counts: "n <animal/stem> …" where n is the day number, within the first lunar month, of the
+		// first day carrying that branch (stem); the first day's pillar comes from the sexagenary day count
+		if err := yearAlmanac(ly); err != nil {
+			return fmt.Errorf("%v: %v", c.T, err)
 		}
 		// classical laws
 		if (x.m.Day%12 == x.m.MonthDay%12) != (x.l.GetZhiXing() == LunarUtil.ZHI_XING[1]) {
@@ -402,6 +411,37 @@ var nayinLaw = ev.Register(&ev.P[tableCase]{
 	Class:    func(c tableCase) ([]string, bool) { return nil, true },
 	Disjoint: true,
 })
+
+var cnNum = []string{"〇", "一", "二", "三", "四", "五", "六", "七", "八", "九", "十", "十一", "十二"}
+
+// yearAlmanac re-derives the traditional "几龙治水"-style year statements from the pillar of lunar 1/1.
+func yearAlmanac(ly *calendar.LunarYear) error {
+	p := ref.DayPillar(gen.NewYearJDN(ly.GetYear()))
+	zhiN := func(z int) string { return cnNum[ref.Mod(z-p%12, 12)+1] } // day number of the first day with branch z
+	ganN := func(g int) string { return cnNum[ref.Mod(g-p%10, 10)+1] } // day number of the first day with stem g
+	for _, a := range []struct{ name, got, want string }{
+		{"GetTouLiang", ly.GetTouLiang(), zhiN(0) + "鼠偷粮"},
+		{"GetCaoZi", ly.GetCaoZi(), "草子" + zhiN(0) + "分"},
+		{"GetGengTian", ly.GetGengTian(), zhiN(1) + "牛耕田"},
+		{"GetHuaShou", ly.GetHuaShou(), "花收" + zhiN(3) + "分"},
+		{"GetZhiShui", ly.GetZhiShui(), zhiN(4) + "龙治水"},
+		{"GetTuoGu", ly.GetTuoGu(), zhiN(6) + "马驮谷"},
+		{"GetQiangMi", ly.GetQiangMi(), zhiN(9) + "鸡抢米"},
+		{"GetKanCan", ly.GetKanCan(), zhiN(9) + "姑看蚕"},
+		{"GetGongZhu", ly.GetGongZhu(), zhiN(11) + "屠共猪"},
+		{"GetJiaTian", ly.GetJiaTian(), "甲田" + ganN(0) + "分"},
+		{"GetFenBing", ly.GetFenBing(), ganN(2) + "人分饼"},
+		{"GetDeJin", ly.GetDeJin(), ganN(7) + "日得金"},
+		// two counts: the first by the 寅 day, the second by the 丙 (丁) day — the order the library documents by construction
+		{"GetRenBing", ly.GetRenBing(), zhiN(2) + "人" + ganN(2) + "丙"},
+		{"GetRenChu", ly.GetRenChu(), zhiN(2) + "人" + ganN(3) + "锄"},
+	} {
+		if a.got != a.want {
+			return fmt.Errorf("lunar year %d (1/1 is a %s day): %s = %q, counting from the first day gives %q", ly.GetYear(), ref.Pair(p), a.name, a.got, a.want)
+		}
+	}
+	return nil
+}
 
 func TestC18(t *testing.T) {
 	ev.Assume("defining inputs per attribute as declared in the statement; pillars from the independent model (R-gz, R-civil, civil-year term table); exported tables/decoders give the value per key")
